@@ -17,12 +17,12 @@ func init() {
 	register("C07", c07WhereSwap)
 }
 
-type wsCase struct {
+type c07WsCase struct {
 	Items []interface{} `json:"items"` // "or1" | "other" | [inner kinds]
 	Forms []string      `json:"forms"` // concrete expression form per element (distribution)
 }
 
-func wsExpr(kind string, tag int, rng *rand.Rand) (clause.Expression, string) {
+func c07WsExpr(kind string, tag int, rng *rand.Rand) (clause.Expression, string) {
 	e := clause.Expr{SQL: "c = ?", Vars: []interface{}{tag}}
 	if kind == "or1" {
 		return clause.Or(e), "Or(expr)"
@@ -41,16 +41,16 @@ func wsExpr(kind string, tag int, rng *rand.Rand) (clause.Expression, string) {
 	}
 }
 
-func wsTag(e clause.Expression) int {
+func c07WsTag(e clause.Expression) int {
 	switch v := e.(type) {
 	case clause.Expr:
 		return v.Vars[0].(int)
 	case clause.OrConditions:
-		return wsTag(v.Exprs[0])
+		return c07WsTag(v.Exprs[0])
 	case clause.AndConditions:
-		return wsTag(v.Exprs[0])
+		return c07WsTag(v.Exprs[0])
 	case clause.NotConditions:
-		return wsTag(v.Exprs[0])
+		return c07WsTag(v.Exprs[0])
 	case clause.Eq:
 		return v.Value.(int)
 	}
@@ -58,7 +58,7 @@ func wsTag(e clause.Expression) int {
 }
 
 func c07WhereSwap(r *Result, rng *rand.Rand, tier string) {
-	if o := os07Only(); o != "" && o != "where" {
+	if o := c07Only(); o != "" && o != "where" {
 		return
 	}
 	n := 3000
@@ -67,7 +67,7 @@ func c07WhereSwap(r *Result, rng *rand.Rand, tier string) {
 	}
 	db, _, _ := OpenRec(nil)
 	type built struct {
-		c     wsCase
+		c     c07WsCase
 		exprs []clause.Expression // the array the loop is expected to run over (outer, or the group's members)
 		outer []clause.Expression
 	}
@@ -84,7 +84,7 @@ func c07WhereSwap(r *Result, rng *rand.Rand, tier string) {
 			if rng.Intn(2) == 0 {
 				kind = "or1"
 			}
-			e, form := wsExpr(kind, k, rng)
+			e, form := c07WsExpr(kind, k, rng)
 			arr = append(arr, e)
 			kinds = append(kinds, kind)
 			b.c.Forms = append(b.c.Forms, form)
@@ -123,7 +123,7 @@ func c07WhereSwap(r *Result, rng *rand.Rand, tier string) {
 		clause.Where{Exprs: b.outer}.Build(stmt)
 		got := []int{}
 		for _, e := range b.exprs {
-			got = append(got, wsTag(e))
+			got = append(got, c07WsTag(e))
 		}
 		if m.Perm == nil {
 			m.Perm = []int{}
